@@ -118,6 +118,7 @@ enum {
   X(void, jv_const_get, (int ek, int which, void* out)) /* which: 0 zero, 1 generator (EK_GT: 0 one, 1 generator_pairing; EK_FR: 0 group order) */ \
   /* ---- primitive machine (C03) ---- */ \
   X(int, jv_set_entry_mode, (int mode)) \
+  X(void, jv_bind_entry_mode, (int* cell)) \
   X(int, jv_prim, (int op, void* out, const void* a, const void* b)) \
   /* ---- model helpers: reference paths, canonical dumps (C++ only) ---- */ \
   X(void, jv_g1_mul_ref, (void* out, const void* in, const uint8_t* k32)) \
